@@ -199,6 +199,29 @@ func selftest(verif string) int {
 			expect("R-ALIAS "+t.name, len(bigIntCopies(fn)) > 0, t.bad)
 		}
 	}
+	// R-SIGN
+	for _, t := range []struct {
+		name string
+		bad  bool
+	}{{"SignOK", false}, {"SignBad", true}} {
+		if fn := fnOf(pkg + "." + t.name); fn != nil {
+			bad := false
+			for _, in := range callsIn(fn, pkg+".digits") {
+				if ok, _ := provedNonNeg(callCommon(in).Args[1], in); !ok {
+					bad = true
+				}
+			}
+			expect("R-SIGN "+t.name, bad, t.bad)
+		}
+	}
+	for _, t := range []struct {
+		name string
+		bad  bool
+	}{{"SelfCmpOK", false}, {"SelfCmpBad", true}, {"CrossOK", false}, {"CrossBad", true}} {
+		if fn := fnOf(pkg + "." + t.name); fn != nil {
+			expect("R-DEAD "+t.name, len(selfComparisons(fn))+len(crossAppends(fn)) > 0, t.bad)
+		}
+	}
 	if fails > 0 {
 		fmt.Printf("SELFTEST FAILED: %d engine fixtures gave the wrong verdict\n", fails)
 		return 2
